@@ -320,3 +320,25 @@ func b2i(b bool) int {
     loop 1 invariant forall i in 0..len(self.varScopes) :: samemap(self.varScopes[i], entry(self.varScopes[i]))
     loop 1 invariant forall m map[string]string in allocated :: samecontent(m, entry(m))
 @*/
+
+// ---------------------------------------------------------------------------
+// Label relocation (C08 source-map alignment, C01/C11 jump targets): labels
+// are removed, every remaining instruction keeps the span it was generated
+// with, a label denotes the index of the next remaining instruction, and a
+// jump target is an index into (or the end of) the relocated code.
+
+/*@ func (self *Compiler) relocateLabels
+    serves C08, C01, C11
+    assume-safety
+    assert @span-travels-with-instruction after sourceMapOut = append(sourceMapOut, :: len(sourceMapOut) == len(fnOut) && sourceMapOut[len(sourceMapOut)-1] == fn.SourceMap[idx] && fnOut[len(fnOut)-1] == inst
+    assert @label-is-next-instruction after labels[i] = int64(index) :: labels[i] == int64(len(fnOut))
+    assert @jump-target-in-code after fnOut[idx] = newOneIntInstruction(inst.Opcode(), ip) :: 0 <= ip && ip <= int64(len(fnOut)) && VInstrWF(fnOut[idx])
+    assert @handler-target-in-code after fnOut[idx] = newOneIntOneStringInstruction( :: 0 <= ip && ip <= int64(len(fnOut)) && VInstrWF(fnOut[idx])
+    assert @aligned-result before self.modules[moduleName][name].Instructions = fnOut :: len(fnOut) == len(sourceMapOut)
+    loop 3 invariant len(fnOut) == index && len(sourceMapOut) == index && index <= rangeindex() && (cap(fnOut) == 0 || fresh(fnOut)) && (cap(sourceMapOut) == 0 || fresh(sourceMapOut)) && fresh(labels)
+    loop 3 invariant forall k string in keys(labels) :: 0 <= labels[k] && labels[k] <= int64(index)
+    loop 3 invariant forall j in 0..len(fnOut) :: fnOut[j] != nil && fnOut[j].Opcode() != Opcode_Label
+    loop 4 invariant len(fnOut) == entry(len(fnOut)) && len(sourceMapOut) == len(fnOut) && sameslice(fnOut, entry(fnOut)) && fresh(labels)
+    loop 4 invariant forall k string in keys(labels) :: 0 <= labels[k] && labels[k] <= int64(len(fnOut))
+    loop 4 invariant forall j in rangeindex()..len(fnOut) :: fnOut[j] != nil && fnOut[j].Opcode() != Opcode_Label
+@*/
